@@ -19,8 +19,9 @@ def split_obs(s):
     return s.split(" | ") if s else []
 
 
-def split_ops(h):
-    return [x.strip() for x in h.split(";") if x.strip()]
+def split_ops(h, keep_z=False):
+    """steps of a history; 'Z k' (naming scheme of the harness, no observation) is dropped unless keep_z"""
+    return [x.strip() for x in h.split(";") if x.strip() and (keep_z or not x.strip().startswith("Z"))]
 
 
 def insts(dump):
@@ -176,7 +177,7 @@ def signature(ev):
 
 
 def shrink(runner, hist, sig):
-    ops = split_ops(hist)
+    ops = split_ops(hist, keep_z=True)
     changed = True
     rounds = 0
     while changed and len(ops) > 1 and rounds < 40:
